@@ -514,9 +514,137 @@ fn run_op(op: i64, data: &[u8], args: &[u64]) -> Result<Vec<i128>, String> {
                     None => vec![-6],
                 }
             }
+            24 => {
+                use read_fonts::tables::varc::Varc;
+                // args: fuel, k, then k entries (len, bytes...) of the axis-indices INDEX; data = the glyph record
+                let fuel = a(0);
+                let k = a(1);
+                let mut entries: Vec<Vec<u8>> = vec![];
+                let mut p = 2;
+                for _ in 0..k {
+                    let n = a(p);
+                    entries.push(args[p + 1..p + 1 + n].iter().map(|v| *v as u8).collect());
+                    p += 1 + n;
+                }
+                let table = varc_table_bytes(&entries, &data);
+                let varc = Varc::read(FontData::new(&table)).unwrap();
+                let g = varc.glyph(0).unwrap();
+                let items: Vec<_> = g.components().take(fuel).collect();
+                let mut out = vec![(items.len() < fuel) as i128, items.len() as i128];
+                for it in items {
+                    match it {
+                        Ok(_) => out.push(0),
+                        Err(e) => out.extend(err_code(&e)),
+                    }
+                }
+                out
+            }
+            25 | 26 => {
+                use read_fonts::tables::glyf::{Anchor, CompositeGlyph};
+                let fuel = a(0);
+                let mut gb = vec![0xFFu8, 0xFF, 0, 0, 0, 0, 0, 0, 0, 0];
+                gb.extend(&data);
+                let g = CompositeGlyph::read(FontData::new(&gb)).unwrap();
+                if op == 25 {
+                    let items: Vec<_> = g.components().take(fuel).collect();
+                    let mut out = vec![(items.len() < fuel) as i128, items.len() as i128];
+                    for c in items {
+                        out.push(c.flags.bits() as i128);
+                        out.push(c.glyph.to_u16() as i128);
+                        match c.anchor {
+                            Anchor::Offset { x, y } => out.extend([0, x as i128, y as i128]),
+                            Anchor::Point { base, component } => out.extend([1, base as i128, component as i128]),
+                        }
+                        out.extend([c.transform.xx.to_bits() as i128, c.transform.yx.to_bits() as i128, c.transform.xy.to_bits() as i128, c.transform.yy.to_bits() as i128]);
+                    }
+                    out
+                } else {
+                    let items: Vec<_> = g.component_glyphs_and_flags().take(fuel).collect();
+                    let mut out = vec![(items.len() < fuel) as i128, items.len() as i128];
+                    for (gid, f) in items {
+                        out.push(gid.to_u16() as i128);
+                        out.push(f.bits() as i128);
+                    }
+                    out
+                }
+            }
+            27 => {
+                use read_fonts::tables::name::Name;
+                let enc = args[0];
+                let fuel = a(1);
+                let (pid, eid) = match enc {
+                    0 => (3u16, 1u16),
+                    1 => (1, 0),
+                    _ => (2, 0),
+                };
+                let mut tb = vec![];
+                tb.extend(be16(0));
+                tb.extend(be16(1));
+                tb.extend(be16(18));
+                for v in [pid, eid, 0, 1, data.len() as u16, 0] {
+                    tb.extend(be16(v));
+                }
+                tb.extend(&data);
+                let name = Name::read(FontData::new(&tb)).unwrap();
+                let s = name.name_record()[0].string(name.string_data()).unwrap();
+                let items: Vec<char> = s.chars().take(fuel).collect();
+                let mut out = vec![(items.len() < fuel) as i128, items.len() as i128];
+                for (i, ch) in items.iter().enumerate() {
+                    if enc == 1 && data[i] >= 128 {
+                        out.push(-1);
+                    } else {
+                        out.push(*ch as u32 as i128);
+                    }
+                }
+                out
+            }
             _ => unreachable!(),
         }
     })
+}
+
+fn index2_bytes(objs: &[Vec<u8>]) -> Vec<u8> {
+    let mut v = vec![];
+    v.extend(be32(objs.len() as u32));
+    v.push(2);
+    let mut o = 1u16;
+    v.extend(be16(o));
+    for ob in objs {
+        o += ob.len() as u16;
+        v.extend(be16(o));
+    }
+    for ob in objs {
+        v.extend(ob);
+    }
+    v
+}
+/// a VARC table with the given axis-indices entries and one glyph record
+fn varc_table_bytes(axis_entries: &[Vec<u8>], record: &[u8]) -> Vec<u8> {
+    let ax = index2_bytes(axis_entries);
+    let gl = index2_bytes(&[record.to_vec()]);
+    let mut t = vec![0u8, 1, 0, 0];
+    t.extend(be32(0));
+    t.extend(be32(0));
+    t.extend(be32(0));
+    t.extend(be32(24));
+    t.extend(be32(24 + ax.len() as u32));
+    t.extend(ax);
+    t.extend(gl);
+    t
+}
+fn u32var(v: u32) -> Vec<u8> {
+    if v < 0x80 {
+        vec![v as u8]
+    } else if v < 0x4000 {
+        vec![0x80 | (v >> 8) as u8, v as u8]
+    } else if v < 0x20_0000 {
+        vec![0xC0 | (v >> 16) as u8, (v >> 8) as u8, v as u8]
+    } else if v < 0x1000_0000 {
+        vec![0xE0 | (v >> 24) as u8, (v >> 16) as u8, (v >> 8) as u8, v as u8]
+    } else {
+        let b = v.to_be_bytes();
+        vec![0xF0, b[0], b[1], b[2], b[3]]
+    }
 }
 
 /// nibbles -> BCD bytes (padded with the end nibble 0xF)
@@ -1099,6 +1227,122 @@ fn correspondence_bcd(rng: &mut Rng, cw: &mut CaseWriter, st: &mut Stats) {
         let n = rng.below(24) as usize;
         let b = rng.bytes(n);
         c.emit(23, &b, &[]);
+    }
+}
+
+/// correspondence for the cursor-based iterators (ops 24-27): items and final error kinds with an item cap
+fn correspondence_iters(rng: &mut Rng, cw: &mut CaseWriter, st: &mut Stats, thorough: bool) {
+    let mut c = Corr { cw, st };
+    let reps = if thorough { 4 } else { 1 };
+    // VARC component records
+    for _ in 0..(700 * reps) {
+        let k = rng.below(4) as usize;
+        let entries: Vec<Vec<u8>> = (0..k)
+            .map(|_| match rng.below(5) {
+                0 => vec![],
+                1 => vec![0x80 | rng.below(6) as u8],
+                2 => vec![rng.below(3) as u8, 1, 2, 3],
+                3 => vec![0x41, 0, 1, 0, 2],
+                _ => {
+                    let n = rng.below(5) as usize;
+                    rng.bytes(n)
+                }
+            })
+            .collect();
+        let mut rec = vec![];
+        for _ in 0..(1 + rng.below(3)) {
+            let mut flags: u32 = rng.next_u32() & 0x7FFF;
+            match rng.below(6) {
+                0 => flags &= 0x1003,
+                1 => flags |= 0x8000 << rng.below(17),
+                2 => flags &= !0x0002,
+                _ => {}
+            }
+            rec.extend(u32var(flags));
+            rec.extend(rng.bytes(if flags & 0x1000 != 0 { 3 } else { 2 }));
+            if flags & 0x80 != 0 {
+                rec.extend(u32var(rng.below(300) as u32));
+            }
+            if flags & 0x2 != 0 {
+                rec.extend(u32var(rng.below(k as u64 + 2) as u32));
+                let n = rng.below(8) as usize;
+                rec.extend((0..n).map(|_| *rng.pick(&[0u8, 1, 0x80, 0x81, 0x40, 5, 0xC0, 0x3F])));
+            }
+            for bit in [4u32, 8] {
+                if flags & bit != 0 {
+                    rec.extend(u32var(rng.next_u32() >> rng.below(32)));
+                }
+            }
+            for bit in [16u32, 32, 64, 256, 512, 8192, 16384, 1024, 2048] {
+                if flags & bit != 0 {
+                    rec.extend(rng.bytes(2));
+                }
+            }
+            for _ in 0..(flags >> 15).count_ones() {
+                rec.extend(u32var(rng.below(200) as u32));
+            }
+        }
+        match rng.below(5) {
+            0 => {
+                let t = rng.below(rec.len() as u64 + 1) as usize;
+                rec.truncate(t);
+            }
+            1 => {
+                let p = rng.below(rec.len() as u64) as usize;
+                rec[p] = rng.next_u64() as u8;
+            }
+            2 => {
+                let n = 1 + rng.below(3) as usize;
+                rec.extend(rng.bytes(n));
+            }
+            _ => {}
+        }
+        let mut a: Vec<u64> = vec![12, k as u64];
+        for e in &entries {
+            a.push(e.len() as u64);
+            a.extend(e.iter().map(|b| *b as u64));
+        }
+        c.emit(24, &rec, &a);
+    }
+    // glyf composite components
+    for _ in 0..(500 * reps) {
+        let mut d = vec![];
+        for _ in 0..(1 + rng.below(4)) {
+            let mut flags: u16 = rng.next_u32() as u16;
+            if rng.chance(2, 3) {
+                flags |= 0x20;
+            }
+            if rng.chance(1, 2) {
+                flags &= !0xC8 | (1 << *rng.pick(&[3u16, 6, 7]));
+            }
+            d.extend(be16(flags));
+            d.extend(rng.bytes(2));
+            d.extend(rng.bytes(if flags & 1 != 0 { 4 } else { 2 }));
+            let tl = if flags & 8 != 0 { 2 } else if flags & 0x40 != 0 { 4 } else if flags & 0x80 != 0 { 8 } else { 0 };
+            d.extend(rng.bytes(tl));
+        }
+        if rng.chance(1, 3) {
+            let t = rng.below(d.len() as u64 + 1) as usize;
+            d.truncate(t);
+        }
+        c.emit(25, &d, &[8]);
+        c.emit(26, &d, &[8]);
+    }
+    // name record strings
+    for _ in 0..(400 * reps) {
+        let n = rng.below(14) as usize;
+        let mut d = rng.bytes(n);
+        for i in (0..d.len()).step_by(2) {
+            match rng.below(5) {
+                0 => d[i] = 0xD8 + rng.below(4) as u8,
+                1 => d[i] = 0xDC + rng.below(4) as u8,
+                2 => d[i] = 0,
+                _ => {}
+            }
+        }
+        for enc in [0u64, 1, 2] {
+            c.emit(27, &d, &[enc, 20]);
+        }
     }
 }
 
@@ -2729,6 +2973,281 @@ fn ps_search(seed: u64, thorough: bool, st: &mut Stats) {
     }
 }
 
+// ------------------------------------------------------------------------------------------------
+// (d) GSUB closure worklist: generated cyclic / self-referential lookup graphs under a watchdog
+// ------------------------------------------------------------------------------------------------
+/// lookups: Err(map) = SingleSubstFormat2 (coverage glyphs -> substitutes), Ok(rules) = SequenceContextFormat1
+/// with rules (first glyph, following glyphs, [(sequence index, lookup index)])
+#[derive(Clone, Debug)]
+enum GLookup {
+    Single(Vec<(u16, u16)>),
+    Context(Vec<(u16, Vec<u16>, Vec<(u16, u16)>)>),
+}
+fn coverage1(glyphs: &[u16]) -> Vec<u8> {
+    let mut g = glyphs.to_vec();
+    g.sort();
+    g.dedup();
+    let mut v = vec![];
+    v.extend(be16(1));
+    v.extend(be16(g.len() as u16));
+    for x in g {
+        v.extend(be16(x));
+    }
+    v
+}
+fn gsub_bytes(lookups: &[GLookup]) -> Vec<u8> {
+    let mut subtables: Vec<(u16, Vec<u8>)> = vec![];
+    for l in lookups {
+        match l {
+            GLookup::Single(m) => {
+                let mut m = m.clone();
+                m.sort();
+                m.dedup_by_key(|p| p.0);
+                let mut st = vec![];
+                st.extend(be16(2));
+                st.extend(be16(6 + 2 * m.len() as u16));
+                st.extend(be16(m.len() as u16));
+                for (_, to) in &m {
+                    st.extend(be16(*to));
+                }
+                st.extend(coverage1(&m.iter().map(|p| p.0).collect::<Vec<_>>()));
+                subtables.push((1, st));
+            }
+            GLookup::Context(rules) => {
+                let mut firsts: Vec<u16> = rules.iter().map(|r| r.0).collect();
+                firsts.sort();
+                firsts.dedup();
+                // one rule set per covered first glyph
+                let mut sets: Vec<Vec<u8>> = vec![];
+                for f in &firsts {
+                    let rs: Vec<_> = rules.iter().filter(|r| r.0 == *f).collect();
+                    let mut rules_b: Vec<Vec<u8>> = vec![];
+                    for (_, rest, recs) in rs {
+                        let mut rb = vec![];
+                        rb.extend(be16(rest.len() as u16 + 1));
+                        rb.extend(be16(recs.len() as u16));
+                        for g in rest {
+                            rb.extend(be16(*g));
+                        }
+                        for (si, li) in recs {
+                            rb.extend(be16(*si));
+                            rb.extend(be16(*li));
+                        }
+                        rules_b.push(rb);
+                    }
+                    let mut set = vec![];
+                    set.extend(be16(rules_b.len() as u16));
+                    let mut off = 2 + 2 * rules_b.len();
+                    for rb in &rules_b {
+                        set.extend(be16(off as u16));
+                        off += rb.len();
+                    }
+                    for rb in rules_b {
+                        set.extend(rb);
+                    }
+                    sets.push(set);
+                }
+                let mut st = vec![];
+                st.extend(be16(1));
+                let hdr = 6 + 2 * sets.len();
+                let cov = coverage1(&firsts);
+                st.extend(be16(hdr as u16));
+                st.extend(be16(sets.len() as u16));
+                let mut off = hdr + cov.len();
+                for set in &sets {
+                    st.extend(be16(off as u16));
+                    off += set.len();
+                }
+                st.extend(cov);
+                for set in sets {
+                    st.extend(set);
+                }
+                subtables.push((5, st));
+            }
+        }
+    }
+    // lookup list
+    let mut lookups_b: Vec<Vec<u8>> = vec![];
+    for (ty, st) in &subtables {
+        let mut lb = vec![];
+        lb.extend(be16(*ty));
+        lb.extend(be16(0));
+        lb.extend(be16(1));
+        lb.extend(be16(8));
+        lb.extend(st);
+        lookups_b.push(lb);
+    }
+    let mut ll = vec![];
+    ll.extend(be16(lookups_b.len() as u16));
+    let mut off = 2 + 2 * lookups_b.len();
+    for lb in &lookups_b {
+        ll.extend(be16(off as u16));
+        off += lb.len();
+    }
+    for lb in lookups_b {
+        ll.extend(lb);
+    }
+    // feature list: one feature referencing every lookup
+    let mut fl = vec![];
+    fl.extend(be16(1));
+    fl.extend(b"test");
+    fl.extend(be16(8));
+    fl.extend(be16(0));
+    fl.extend(be16(subtables.len() as u16));
+    for i in 0..subtables.len() {
+        fl.extend(be16(i as u16));
+    }
+    let sl = be16(0).to_vec();
+    let mut t = vec![0u8, 1, 0, 0];
+    t.extend(be16(10));
+    t.extend(be16(10 + sl.len() as u16));
+    t.extend(be16(10 + sl.len() as u16 + fl.len() as u16));
+    t.extend(sl);
+    t.extend(fl);
+    t.extend(ll);
+    t
+}
+
+fn closure_search(seed: u64, thorough: bool, st: &mut Stats, dir: &std::path::Path) {
+    use read_fonts::collections::IntSet;
+    use read_fonts::tables::gsub::Gsub;
+    let mut rng = Rng::new(seed ^ 0x434c_4f53);
+    let n = if thorough { 12_000 } else { 2_500 };
+    let mut cases: Vec<(String, Vec<u8>, Vec<u16>)> = vec![];
+    for i in 0..n {
+        let k = 1 + rng.below(5) as usize;
+        let ng = 3 + rng.below(10) as u16;
+        let mut lookups = vec![];
+        for li in 0..k {
+            if rng.chance(2, 5) {
+                let m = (0..1 + rng.below(4)).map(|_| (1 + rng.below(ng as u64) as u16, 1 + rng.below(ng as u64 + 3) as u16)).collect();
+                lookups.push(GLookup::Single(m));
+            } else {
+                let rules = (0..1 + rng.below(3))
+                    .map(|_| {
+                        let rest: Vec<u16> = (0..rng.below(3)).map(|_| 1 + rng.below(ng as u64) as u16).collect();
+                        let len = rest.len() as u64 + 1;
+                        let recs: Vec<(u16, u16)> = (0..1 + rng.below(4))
+                            .map(|_| {
+                                let si = if rng.chance(1, 40) { len as u16 + rng.below(2) as u16 } else { rng.below(len) as u16 };
+                                let li2 = match rng.below(6) {
+                                    0 => li as u16,                    // self reference
+                                    1 => k as u16 + rng.below(2) as u16, // out of range
+                                    _ => rng.below(k as u64) as u16,
+                                };
+                                (si, li2)
+                            })
+                            .collect();
+                        (1 + rng.below(ng as u64) as u16, rest, recs)
+                    })
+                    .collect();
+                lookups.push(GLookup::Context(rules));
+            }
+        }
+        // the round-3 m7 shape: two records with the same sequence index, the second pointing back at the lookup itself
+        if i % 5 == 0 {
+            let li = lookups.len() as u16;
+            lookups.push(GLookup::Context(vec![(1, vec![2], vec![(0, rng.below(li as u64 + 1) as u16), (0, li)])]));
+        }
+        let input: Vec<u16> = (0..1 + rng.below(5)).map(|_| 1 + rng.below(ng as u64) as u16).chain(if i % 5 == 0 { vec![1, 2] } else { vec![] }).collect();
+        cases.push((format!("closure:{}", i), gsub_bytes(&lookups), input));
+    }
+    // minimal shape of the sequence-index finding: one context rule of length 1 whose lookup record has sequenceIndex 1
+    cases.insert(0, ("closure:min-seqindex-out-of-range".into(), gsub_bytes(&[GLookup::Context(vec![(1, vec![], vec![(1, 0)])])]), vec![1]));
+    let cases = Arc::new(cases);
+    let progress = Arc::new(AtomicUsize::new(0));
+    let fails: Arc<Mutex<Vec<(String, String)>>> = Arc::new(Mutex::new(vec![]));
+    let done = Arc::new(AtomicUsize::new(0));
+    let stats_acc: Arc<Mutex<[u64; 4]>> = Arc::new(Mutex::new([0; 4]));
+    {
+        let (cases, progress, fails, done, stats_acc) = (cases.clone(), progress.clone(), fails.clone(), done.clone(), stats_acc.clone());
+        std::thread::Builder::new()
+            .stack_size(64 << 20)
+            .spawn(move || {
+                for (i, (name, bytes, input)) in cases.iter().enumerate() {
+                    progress.store(i, Ordering::SeqCst);
+                    let (b2, in2) = (bytes.clone(), input.clone());
+                    let r = catch(move || {
+                        let gsub = match Gsub::read(FontData::new(&b2)) {
+                            Ok(g) => g,
+                            Err(_) => return (0u8, vec![], vec![]),
+                        };
+                        let set: IntSet<GlyphId16> = in2.iter().map(|g| GlyphId16::new(*g)).collect();
+                        match gsub.closure_glyphs(set) {
+                            Ok(out) => {
+                                let o1: Vec<u16> = out.iter().map(|g| g.to_u16()).collect();
+                                // closing again must be a no-op, and the same call must give the same answer
+                                let again = gsub.closure_glyphs(out.clone()).map(|o| o.iter().map(|g| g.to_u16()).collect::<Vec<u16>>()).unwrap_or_default();
+                                (1, o1, again)
+                            }
+                            Err(_) => (2, vec![], vec![]),
+                        }
+                    });
+                    let mut acc = stats_acc.lock().unwrap();
+                    match r {
+                        Err(m) => {
+                            let loc = last_loc();
+                            let site = loc.rsplit('/').next().unwrap_or("").to_string();
+                            fails.lock().unwrap().push((format!("closure:panic:{}", site), format!("{}: panic: {} at {}; gsub bytes {:?}; input glyphs {:?}", name, m, loc, bytes, input)))
+                        }
+                        Ok((0, _, _)) => acc[0] += 1,
+                        Ok((2, _, _)) => acc[2] += 1,
+                        Ok((_, o1, again)) => {
+                            acc[1] += 1;
+                            acc[3] += o1.len() as u64;
+                            if !input.iter().all(|g| o1.contains(g)) {
+                                fails.lock().unwrap().push((name.clone(), "closure lost an input glyph".into()));
+                            }
+                            if o1 != again {
+                                fails.lock().unwrap().push((name.clone(), format!("closure is not idempotent: {:?} then {:?}", o1, again)));
+                            }
+                        }
+                    }
+                }
+                done.store(1, Ordering::SeqCst);
+            })
+            .unwrap();
+    }
+    // watchdog: the whole family is tiny (<= 6 lookups, <= 16 glyphs); any case needing more than 10 s hangs
+    let mut last = (usize::MAX, Instant::now());
+    while done.load(Ordering::SeqCst) == 0 {
+        std::thread::sleep(Duration::from_millis(50));
+        let p = progress.load(Ordering::SeqCst);
+        if p != last.0 {
+            last = (p, Instant::now());
+        } else if last.1.elapsed() > Duration::from_secs(10) {
+            let name = cases[p].0.clone();
+            st.oracle_failure(json!({"key": format!("{}:hang", name), "what": "Gsub::closure_glyphs did not return within 10 s on a generated GSUB with <= 6 lookups (todo loop does not terminate)", "gsub": cases[p].1, "input": cases[p].2}));
+            st.count("closure.hang");
+            st.v.insert("aborted_on_hang".into(), true.into());
+            st.write(dir, "aborted: closure hang");
+            println!("HANG {}", name);
+            std::process::exit(0);
+        }
+    }
+    let acc = stats_acc.lock().unwrap();
+    st.evaluations += cases.len() as u64;
+    st.add("closure.cases", cases.len() as u64);
+    st.add("closure.read_err", acc[0]);
+    st.add("closure.ok", acc[1]);
+    st.add("closure.err", acc[2]);
+    st.add("closure.glyphs_out", acc[3]);
+    let mut seen = std::collections::BTreeSet::new();
+    for (name, why) in fails.lock().unwrap().iter() {
+        st.count("closure.failures");
+        if name.starts_with("closure:panic:") {
+            if seen.insert(name.clone()) {
+                st.oracle_failure(json!({"key": name, "what": why}));
+            }
+            continue;
+        }
+        let w60: String = why.chars().take(60).collect();
+        if seen.insert(w60.clone()) {
+            st.oracle_failure(json!({"key": format!("{}:{}", name, w60), "what": why}));
+        }
+    }
+}
+
 fn main() {
     install_hook();
     let args: Vec<String> = std::env::args().collect();
@@ -2739,18 +3258,20 @@ fn main() {
     let mut st = Stats::new();
     let mut cw = CaseWriter::new(
         &dir,
-        "From Coq Require Import ZArith List. Import ListNotations. Open Scope Z_scope.\nFrom FV Require Import Lib.Cases C01.Model C01.ModelH.",
+        "From Coq Require Import ZArith List. Import ListNotations. Open Scope Z_scope.\nFrom FV Require Import Lib.Cases C01.Model C01.ModelH C01.IterModel.",
         "Z * list Z * list Z * list Z",
-        "check_case_all",
+        "check_case_all2",
         900,
     );
     correspondence(&mut rng, &mut cw, &mut st, thorough);
     correspondence_bcd(&mut rng, &mut cw, &mut st);
+    correspondence_iters(&mut rng, &mut cw, &mut st, thorough);
     let shards = cw.finish();
     st.v.insert("shards".into(), shards.into());
     st.v.insert("model_cases".into(), cw.len().into());
     if std::env::var("C01_NO_FUZZ").is_err() {
         ps_search(seed, thorough, &mut st);
+        closure_search(seed, thorough, &mut st, &dir);
         fuzz(seed, thorough, &mut st, &dir);
     }
     st.write(
